@@ -89,6 +89,8 @@ class Tr:
         self.defined = set()        # lean names currently bound
         self.mpi = []
         self.dropped = []
+        self.members_mode = False
+        self.new_arity = None
 
     # ---------- expressions
     def var_of(self, e):
@@ -318,7 +320,18 @@ class Tr:
                 self.dropped.append(self.describe(s))
                 continue
             if k == "ReturnStmt":
-                val = self.expr(s['inner'][0])
+                r = strip(s['inner'][0])
+                if r.get("kind") == "CXXNewExpr":
+                    # `return new T(a, b, ...)`: the integer arguments of the constructor call, in order
+                    ce = next((c for c in r.get("inner", []) if c.get("kind") == "CXXConstructExpr"), None)
+                    if ce is None:
+                        raise Unsupported(f"{self.fname}: new-expression without constructor call")
+                    args = [a for a in ce.get("inner", []) if a.get("kind") != "CXXDefaultArgExpr"]
+                    vals = [self.expr(a) for a in args if is_int(strip(a))]
+                    self.new_arity = len(vals)
+                    self.new_skipped = len(args) - len(vals)
+                    return out + self.flush(ind) + f"{ind}{'ok' if self.guard else '(' + ', '.join(vals) + ')'}\n"
+                val = self.expr(r)
                 return out + self.flush(ind) + f"{ind}{'ok' if self.guard else val}\n"
             if k == "VarDecl1":
                 d = s["decl"]
@@ -340,6 +353,17 @@ class Tr:
                 continue
             if k == "WhileStmt":
                 out += self.while_loop(s, ind)
+                continue
+            if k == "BinaryOperator" and self.is_vec_store(s) and self.members_mode:
+                # a single store `v[i] = e` of a method translated for its effect on the members: two more outputs
+                l = strip(s["inner"][0]); obj = strip(l["inner"][1])
+                vname = obj.get("name") if obj.get("kind") == "MemberExpr" else obj.get("referencedDecl", {}).get("name")
+                idx = self.expr(l["inner"][2]); val = self.expr(s["inner"][1])
+                for nm, rhs in ((f"{vname}_store_index", idx), (f"{vname}_store_value", val)):
+                    if nm in self.assigned:
+                        raise Unsupported(f"{self.fname}: more than one store into {vname}")
+                    self.assigned.append(nm); self.defined.add(nm)
+                    out += self.flush(ind) + f"{ind}let {nm} : Int := {rhs}\n"
                 continue
             if k == "BinaryOperator" and self.is_vec_store(s):      # the value computed for the output vector: the result
                 val = self.expr(s["inner"][1])
@@ -418,8 +442,10 @@ class Tr:
             return f"non-integer update ({s.get('opcode')}) of type {qual(s['inner'][0])}"
         return k or "?"
 
-    def function(self, decl, lean_name, member_names, loop_body=False):
+    def function(self, decl, lean_name, member_names, loop_body=False, members_mode=False):
         self.member_names = member_names
+        self.members_mode = members_mode
+        self.new_arity = None
         self.lean_name = lean_name
         params = [p["name"] for p in decl.get("inner", []) if p.get("kind") == "ParmVarDecl" and is_int(p)]
         skipped = [p["name"] for p in decl.get("inner", []) if p.get("kind") == "ParmVarDecl" and not is_int(p)]
@@ -427,7 +453,7 @@ class Tr:
         if not body:
             raise Unsupported(f"{self.fname}: no body")
         self.defined = set(params) | {"ok"}
-        is_ctor = decl.get("kind") == "CXXConstructorDecl"
+        is_ctor = decl.get("kind") == "CXXConstructorDecl" or members_mode
         stmts = self.flatten(body[0])
         if loop_body:
             # the prologue up to the (single) for loop, then the loop body once; the body's input is the dereferenced iterator
@@ -444,7 +470,7 @@ class Tr:
             ret = " × ".join(["Int"] * len(self.assigned)) or "Unit"
         else:
             text = self.block(stmts, lambda: (_ for _ in ()).throw(Unsupported(f"{self.fname}: a path does not return")), "  ")
-            ret = "Int"
+            ret = "Int" if not self.new_arity else " × ".join(["Int"] * self.new_arity)
         mem = sorted(self.members_read)
         sig = ""
         if mem:
@@ -498,7 +524,9 @@ TARGETS = {
                                "last_local_row", "last_local_col", "num_shared", "assumed_num_cols"],
                       funcs=[("CXXConstructorDecl", "Partition", 3, "ctor_default"), ("CXXConstructorDecl", "Partition", 5, "ctor_block"),
                              ("CXXConstructorDecl", "Partition", 7, "ctor_explicit"),
-                             ("CXXMethodDecl", "form_col_to_proc", None, "owner_search", "loop_body")]),
+                             ("CXXMethodDecl", "form_col_to_proc", None, "owner_search", "loop_body"),
+                             ("CXXMethodDecl", "create_assumed_partition", None, "assumed_partition", "members"),
+                             ("CXXMethodDecl", "transpose", None, "transpose_args")]),
 }
 
 
@@ -509,14 +537,14 @@ def generate(outdir):
     for cls, t in TARGETS.items():
         parts, rep = [], []
         for ent in t["funcs"]:
-            kind, name, npar, lean_name = ent[:4]; lb = len(ent) > 4
+            kind, name, npar, lean_name = ent[:4]; lb = len(ent) > 4 and ent[4] == "loop_body"; mm = len(ent) > 4 and ent[4] == "members"
             try:
                 objs = ast_of(t["headers"], name)
                 d = find_decl(objs, kind, name, npar)
                 if d is None:
                     raise Unsupported(f"{cls}::{name}/{npar} not found in the AST")
-                parts.append(Tr(f"{cls}::{name}" + (f"/{npar}" if npar else "")).function(d, lean_name, t["members"], lb))
-                parts.append(Tr(f"{cls}::{name}" + (f"/{npar}" if npar else ""), guard=True).function(d, lean_name + "_defined", t["members"], lb))
+                parts.append(Tr(f"{cls}::{name}" + (f"/{npar}" if npar else "")).function(d, lean_name, t["members"], lb, mm))
+                parts.append(Tr(f"{cls}::{name}" + (f"/{npar}" if npar else ""), guard=True).function(d, lean_name + "_defined", t["members"], lb, mm))
                 rep.append((lean_name, True, ""))
             except Unsupported as ex:
                 parts.append(f"/- TRANSLATION ERROR for {cls}::{name}: {ex} -/")
